@@ -190,6 +190,13 @@ pub fn run(thorough: bool, deadline: Instant) -> (PartOut, Vec<(&'static str, Ve
             check_one(job.la, job.la + d, None, acc, None);
         }
     });
+    // the two low bits of the first header byte give the packet number length (§17.2, §17.3.1)
+    for tag in 0..=255u8 {
+        acc.evals += 1;
+        if hook::pn_decode_len(tag) != usize::from(tag & 0x03) + 1 {
+            acc.viol("pn-decode-len", format!("decode_len({tag:#x}) = {}", hook::pn_decode_len(tag)), json!(null));
+        }
+    }
     for (la, n) in [(0u64, 127u64), (0, 128), (1000, 1000 + 32768), (1 << 32, (1 << 32) + (1 << 23))] {
         let (len, bytes) = hook::pn_encode(n, la);
         acc.sample(|| json!({"n": n, "largest_acked": la, "len": len, "bytes": crate::hex(&bytes)}));
